@@ -201,10 +201,10 @@ m("c19_token_released_before_fn", "C19", "goz/goz.go",
 m("c19_default_limit_1", "C19", "goz/goz.go",
   "\tif limit < 1 {\n\t\tlimit = 3\n\t}", "\tif limit < 1 {\n\t\tlimit = 1\n\t}")
 m("c19_done_releases_two_tokens", "C19", "goz/goz.go",
-  "\tl.w.Done()\n\t<-l.c\n", "\tl.w.Done()\n\t<-l.c\n\tselect {\n\tcase <-l.c:\n\tdefault:\n\t}\n")
+  "\tl.mu.Unlock()\n\n\t<-l.c\n}", "\tl.mu.Unlock()\n\n\t<-l.c\n\tselect {\n\tcase <-l.c:\n\tdefault:\n\t}\n}")
 m("c19_done_before_fn_returns", "C19", "goz/goz.go",
   "\tgo Recover(fn, l.panicHandler, l.done)\n",
-  "\tgo Recover(func() { l.w.Done(); fn() }, l.panicHandler, func() { <-l.c })\n")
+  "\tgo Recover(func() {\n\t\tl.mu.Lock()\n\t\tl.running--\n\t\tif l.running == 0 {\n\t\t\tclose(l.idle)\n\t\t\tl.idle = nil\n\t\t}\n\t\tl.mu.Unlock()\n\t\tfn()\n\t}, l.panicHandler, func() { <-l.c })\n")
 m("c19_handler_gets_wrapped_value", "C19", "goz/goz.go",
   "\t\t\tif panicFn != nil {\n\t\t\t\tpanicFn(p)\n\t\t\t} else {\n\t\t\t\tvar buf strings.Builder",
   "\t\t\tif panicFn != nil {\n\t\t\t\tif e, ok := p.(error); ok {\n\t\t\t\t\tp = fmt.Sprintf(\"error: %v\", e)\n\t\t\t\t}\n\t\t\t\tpanicFn(p)\n\t\t\t} else {\n\t\t\t\tvar buf strings.Builder")
